@@ -96,6 +96,8 @@ def check_get_score(ctx):
                     bad.append("%s[%s]" % (a.args[0], a.args[1]))
             if a.func == "getitem" and isinstance(a.args[0], Rat) and a.args[0].key() == "$" + CACHE:
                 bad.append("cache[%s]" % a.args[1])
+            if a.func.startswith("elem") and a.args and isinstance(a.args[0], Rat) and a.args[0].key() == "$self._inputs":
+                bad.append("another input picked by iterating over self._inputs")
         uses_own = any(a.func == "getitem" and isinstance(a.args[0], Rat) and a.args[0].key() == "$self._inputs" for a in q.atoms(val))
         ctx.ob("C01.3", site, not bad and uses_own, "array cached for input %s is built only from that input's data and index lists" % k_in,
                loc=loc, msg="the array stored for input %s reads %s" % (k_in, ", ".join(sorted(set(bad))) or "no input at all"),
@@ -113,8 +115,9 @@ def check_get_score(ctx):
         want = {"self._get_time_indices": 0, "self._get_leadtime_indices": 1, "self._get_location_indices": 2}
         ctx.ob("C01.3", site, pos == want, "time/leadtime/location index lists subscript positions 0/1/2", loc=loc,
                msg="index lists are applied at positions %s" % pos)
-    ctx.need(n_load >= 2, "%s: fewer than two loading stores (observation branch and general branch)" % site)
-    ctx.need(n_share >= 1, "%s: the observation-sharing store was not found" % site)
+    if not ctx.findings:
+        ctx.need(n_load >= 2, "%s: fewer than two loading stores (observation branch and general branch)" % site)
+        ctx.need(n_share >= 1, "%s: the observation-sharing store was not found" % site)
     # error exit when no input has observations
     errs = [o for o in ev.outcomes if o.kind == "error" and q.has_cond(o.conds, lambda c: "call:verif.field.Obs()" in c.key() and "$field" in c.key(), True)]
     ctx.ob("C01.4", site, len(errs) >= 1, "no input has observations -> error exit", msg="the 'No files have observations' error exit is gone")
